@@ -4,6 +4,7 @@ import (
 	"fmt"
 	"go/types"
 	"math/big"
+	"regexp"
 	"sort"
 	"strings"
 )
@@ -76,8 +77,14 @@ func newTypeTable() *TypeTable {
 	}
 }
 
+var byteRe = regexp.MustCompile(`\bbyte\b`)
+var runeRe = regexp.MustCompile(`\brune\b`)
+
 func (tt *TypeTable) key(t types.Type) string {
-	return sanitize(types.TypeString(t, tt.qualifier))
+	s := types.TypeString(t, tt.qualifier)
+	s = byteRe.ReplaceAllString(s, "uint8")
+	s = runeRe.ReplaceAllString(s, "int32")
+	return sanitize(s)
 }
 
 func isSetType(t types.Type) (types.Type, bool) {
